@@ -168,7 +168,8 @@ fn judge(s: &Spec, obs: &Obs) -> Vec<(String, String)> {
                 Some(m) if !m.starts_with('{') => *reason == Value::String(m.clone()),
                 Some(m) => serde_json::from_str::<Value>(m).ok().as_ref() == Some(reason),
                 None if at_same_instant => *reason == timeout_text(&s.locale) || *reason == timeout_text("en"),
-                None if known => *reason == timeout_text(&s.locale),
+                // (an implementation may compare locale names without regard to letter case: the statement does not say)
+                None if known => *reason == timeout_text(&s.locale) || *reason == timeout_text(&s.locale.to_lowercase()),
                 None => *reason == timeout_text("en"),
             };
             if !ok {
@@ -177,7 +178,8 @@ fn judge(s: &Spec, obs: &Obs) -> Vec<(String, String)> {
             if !matches!(obs.packets.last(), Some((_, Pkt::ConfDisconnect { .. }))) || obs.count("ConfDisconnect") != 1 {
                 bad("packet-after-timeout-disconnect", format!("{:?}", obs.kinds()));
             }
-            if !matches!(&obs.result, RunResult::Err { kind, .. } if kind == "MissedKeepAlive") {
+            // (the connection ends; the name of the error it ends with is the handler's own business)
+            if matches!(&obs.result, RunResult::Horizon | RunResult::Panic(_)) {
                 bad("timeout-result", format!("{:?}", obs.result));
             }
             if transfer.is_some() {
@@ -287,6 +289,13 @@ fn specs(thorough: bool) -> Vec<Spec> {
                 }
                 v.push(Spec { lat: [50_000, 0, 0], ci_after: 0, echo: e.into(), unsolicited_every: None, auth_ms: 0, locale: loc.clone(), ka_write_stall: None, dc_write_stall: None, timeout_msg: None });
             }
+        }
+    }
+    // locales that are legal strings but not shaped like `ll_cc` (pattern characters, letter case, characters
+    // whose lower-case form has another length, separators, blanks): the silent client still gets its Disconnect
+    for loc in crate::c03::ODD_LOCALES {
+        for e in ["never", "wrong-id"] {
+            v.push(Spec { lat: [50_000, 0, 0], ci_after: 0, echo: e.into(), unsolicited_every: None, auth_ms: 0, locale: loc.into(), ka_write_stall: None, dc_write_stall: None, timeout_msg: None });
         }
     }
     for loc in ["sr_cyrl_rs_\u{441}\u{440}\u{43f}", "de_\u{e9}\u{e9}\u{e9}\u{e9}\u{e9}\u{e9}\u{e9}\u{e9}\u{e9}\u{e9}", "zh_Hant_TW_x_ab\u{e9}\u{e9}"] {
